@@ -6,6 +6,7 @@ branch and at the end of the path; a guard that cannot be proved ends the run in
 Floats used in arithmetic are z3 Reals (exact rationals of the doubles); rounding is outside every claim.
 """
 import builtins
+import io
 import struct as real_struct
 import warnings as real_warnings
 from fractions import Fraction
@@ -1167,6 +1168,37 @@ def symbolize_definition(defn):
         if hasattr(pt, "enumeration") and not isinstance(pt.enumeration, SymDict):
             pt.enumeration = SymDict(pt.enumeration)
     return defn
+
+
+class SymFileBV(io.BufferedIOBase):
+    """a binary file object over symbolic bytes (whole content known, reads return SymBytes slices)"""
+
+    def __init__(self, content):
+        self._items = list(content.items)
+        self._pos = 0
+
+    def readable(self):
+        return True
+
+    def seekable(self):
+        return True
+
+    def seek(self, off, whence=0):
+        n = builtins.len(self._items)
+        self._pos = off if whence == 0 else self._pos + off if whence == 1 else n + off
+        return self._pos
+
+    def tell(self):
+        return self._pos
+
+    def read(self, n=-1):
+        if n is None or (isinstance(n, builtins.int) and n < 0):
+            n = builtins.len(self._items) - self._pos
+        if not isinstance(n, builtins.int):
+            n = n.__index__()
+        out = self._items[self._pos:self._pos + n]
+        self._pos += builtins.len(out)
+        return SymBytes(out) if out else b""
 
 
 # ------------------------------------------------------------------------------------------------ harness helpers
